@@ -49,7 +49,7 @@ fn gen_string(s: &mut Src, max: usize) -> String {
         if s.chance(2) {
             // long plain run up to (and just past) the sizes buffers and strides use,
             // so that what follows it sits behind a length threshold
-            let base = *s.pick(&[16usize, 32, 64, 128, 256, 1024, 4096, 8192, 16384, 65536]);
+            let base = if s.chance(30) { *s.pick(&[16384usize, 65536]) } else { *s.pick(&[16usize, 32, 64, 128, 256, 1024, 4096, 8192]) };
             let len = (base + s.below(4)).saturating_sub(2);
             let fill = *s.pick(&["a", " ", "é", "b&amp;", "\u{A0}", "x"]);
             while out.len() < len {
